@@ -7,6 +7,7 @@ package main
 
 import (
 	"bytes"
+	"sort"
 	"context"
 	"errors"
 	"fmt"
@@ -377,8 +378,29 @@ func (g *gen) batch() op {
 	return op{Kind: "batch", Batch: ops}
 }
 
+func (g *gen) stored() []byte {
+	if len(g.shadow) == 0 {
+		return g.key()
+	}
+	ks := make([]string, 0, len(g.shadow))
+	for k := range g.shadow {
+		ks = append(ks, k)
+	}
+	sort.Strings(ks)
+	return []byte(ks[g.r.Intn(len(ks))])
+}
+
 func (g *gen) iter(kind string) op {
 	s, e := g.bound(), g.bound()
+	switch g.r.Intn(6) {
+	case 0: // the end bound is a stored key
+		e = g.stored()
+	case 1: // both bounds are stored keys
+		s, e = g.stored(), g.stored()
+	case 2: // the start is just above a stored key that is the end: an empty backward interval
+		e = g.stored()
+		s = append(cp(e), 'z')
+	}
 	if g.r.Chance(1, 12) {
 		e = s
 	}
@@ -519,6 +541,27 @@ func corpus() []fixed {
 			wide("iter", 0)}},
 		{name: "empty-value-delcurrent-missing", ops: []op{
 			put("a", ""), wide("hold", 0), {Kind: "del", K: B("a")}, {Kind: "delcur"}, wide("iter", 0)}},
+		{name: "end-bound-on-existing-key", ops: []op{ // the end bound is exclusive in both directions
+			put("k1", "1", "k2", "2", "k3", "3"),
+			{Kind: "iter", Start: B("k3"), End: B("k1")},
+			{Kind: "iter", Start: B("k3"), End: B("k1"), Limit: 1},
+			{Kind: "iter", Start: B("k3"), End: B("k2")},
+			{Kind: "iter", Start: B("k2z"), End: B("k2")},
+			{Kind: "iter", Start: B("k2z"), End: B("k2"), Limit: 1},
+			{Kind: "iter", Start: B("k2"), End: B("k1")},
+			{Kind: "iter", Start: B("k2"), End: B("k1"), Limit: 1},
+			{Kind: "iter", Start: B("k9"), End: B("k3")},
+			{Kind: "iter", Start: B("k9"), End: B("k3"), Limit: 1},
+			{Kind: "iter", Start: B("k1"), End: B("k3")},
+			{Kind: "iter", Start: B("k1"), End: B("k3"), Limit: 1},
+			{Kind: "iter", Start: B("k1"), End: B("k2")},
+			{Kind: "iter", Start: B("k2"), End: B("k2z")},
+			{Kind: "iter", Start: B("k2"), End: B("k3"), Limit: 1},
+			{Kind: "iter", Start: B("k0"), End: B("k1")},
+			{Kind: "iter", Start: B("k0"), End: B("k1"), Limit: 1},
+			{Kind: "iter", Start: B("k1"), End: B("k0")},
+			{Kind: "hold", Start: B("k3"), End: B("k2"), J: 1},
+			{Kind: "hold", Start: B("k2z"), End: B("k2"), Limit: 1, J: 0}}},
 		{name: "limits", ops: []op{
 			put("a", "1", "b", "2", "d", "3", "f", "4"),
 			{Kind: "iter", Start: B("a"), End: B("g"), Limit: 1},
@@ -543,6 +586,53 @@ func clear(kv storage.KvStorage) error {
 		}
 	}
 	return nil
+}
+
+// bigBatch commits one batch of n Puts on distinct keys of keylen bytes, optionally followed by a CAS on a key
+// that does not exist, and counts how many of the n keys are stored afterwards.  The keys are then removed.
+func bigBatch(kv storage.KvStorage, n, keylen int, failing bool) (class string, visible int, errStr string) {
+	ctx := context.Background()
+	defer func() {
+		if p := recover(); p != nil {
+			class, errStr = "RPanic", fmt.Sprint(p)
+		}
+	}()
+	mk := func(i int) []byte {
+		k := bytes.Repeat([]byte{'x'}, keylen)
+		copy(k, fmt.Sprintf("big/%08d/", i))
+		return k
+	}
+	b := kv.BeginBatchWrite()
+	for i := 0; i < n; i++ {
+		b.Put(mk(i), []byte("v"), 0)
+	}
+	if failing {
+		b.CAS([]byte("big-missing"), []byte("1"), []byte("2"), 0)
+	}
+	err := b.Commit(ctx)
+	class, _, _, _, _ = classify(err)
+	if err != nil {
+		errStr = err.Error()
+		if len(errStr) > 200 {
+			errStr = errStr[:200]
+		}
+	}
+	it, ierr := kv.Iter(ctx, []byte("big/"), []byte("big0"), 0, 0)
+	if ierr != nil {
+		return class, -1, "iter: " + ierr.Error()
+	}
+	var found [][]byte
+	for {
+		if e := it.Next(ctx); e != nil {
+			break
+		}
+		found = append(found, cp(it.Key()))
+	}
+	_ = it.Close()
+	for _, k := range found {
+		_ = kv.Del(ctx, k)
+	}
+	return class, len(found), errStr
 }
 
 func main() {
@@ -632,6 +722,23 @@ func main() {
 		}
 		for _, f := range corpus() {
 			runSeq("fixed:"+f.name, f.ops, nil, 0)
+		}
+		// all-or-nothing for a batch that may be too big for one engine transaction (~12 MB of keys)
+		for _, failing := range []bool{true, false} {
+			if !failing && eng != lib.EngBadger {
+				continue
+			}
+			const bigN, bigLen = 3000, 4096
+			_ = clear(kv)
+			cl, vis, es := bigBatch(kv, bigN, bigLen, failing)
+			if vis < 0 {
+				w.Fail(lib.ImplFailure{CaseID: w.Len(), What: "big batch on " + eng + ": " + es})
+				continue
+			}
+			w.Add(lib.Case{Kind: "fixed:big-batch/" + eng,
+				Coq:      lib.App("KBigBatch", coqEng[eng], lib.N(bigN), lib.N(bigLen), lib.Bool(failing), cl, lib.N(uint64(vis))),
+				JSON:     map[string]interface{}{"engine": eng, "name": "big-batch", "puts": bigN, "keylen": bigLen, "failing_cas": failing, "class": cl, "visible": vis, "err": es},
+				Outcomes: []string{"bigbatch:" + cl}})
 		}
 		er := rnd.Fork()
 		for s := 0; s < perEngine; s++ {
